@@ -21,6 +21,7 @@ type SpecEnv struct {
 	vars  map[string]Val
 	pkg   *types.Package
 	loop  *ssa.BasicBlock
+	pre   *State // loop-head state of the current iteration (hints)
 	depth int
 }
 
@@ -124,6 +125,12 @@ func (env *SpecEnv) eval(e SExpr) Val {
 		}
 		n := env.with(env.old)
 		// parameters inside old() are entry values already
+		return n.force(n.eval(x.X))
+	case SPre:
+		if env.pre == nil {
+			env.fail("pre() is only available in loop hints")
+		}
+		n := env.with(env.pre)
 		return n.force(n.eval(x.X))
 	case SUn:
 		v := env.force(env.eval(x.X))
@@ -594,6 +601,15 @@ func (env *SpecEnv) quant(x SQuant) Val {
 	}
 	body := n.force(n.eval(x.Body))
 	n.want(body, sBool, "quantifier body")
+	var pats []string
+	for _, grp := range x.Triggers {
+		var ts []string
+		for _, t := range grp {
+			tv := n.force(n.eval(t))
+			ts = append(ts, tv.S)
+		}
+		pats = append(pats, ":pattern ("+strings.Join(ts, " ")+")")
+	}
 	q := "forall"
 	b := body.S
 	if x.Forall {
@@ -601,6 +617,9 @@ func (env *SpecEnv) quant(x SQuant) Val {
 	} else {
 		q = "exists"
 		b = and(append(facts, b)...)
+	}
+	if len(pats) > 0 {
+		b = "(! " + b + " " + strings.Join(pats, " ") + ")"
 	}
 	return Val{S: fmt.Sprintf("(%s (%s) %s)", q, strings.Join(binds, " "), b), Sort: sBool}
 }
@@ -778,7 +797,11 @@ func (env *SpecEnv) call(x SCall) Val {
 	}
 	// ghost fields
 	if gh, ok := g.ghosts[x.Fun]; ok {
-		k := arg(0)
+		k := env.eval(x.Args[0])
+		if k.S == "" && k.Addr != "" {
+			k = Val{S: k.Addr, Sort: sInt}
+		}
+		k = env.force(k)
 		idx := k.S
 		if k.Sort == sIface {
 			idx = "(ival " + k.S + ")"
